@@ -161,13 +161,36 @@ func execConnServe(toks []string) string {
 		n = 1
 	}
 	h := &heldHandler{conns: map[diam.Conn]*connObs{}}
+	var handler diam.Handler = h
+	var mux *diam.ServeMux
+	if hs, _ := kvGet(toks, "h"); hs == "mux" {
+		// handlers registered by name in a ServeMux shared by all connections
+		mux = diam.NewServeMux()
+		mux.HandleFunc("ALL", h.ServeDIAM)
+		mux.HandleFunc("DWR", h.ServeDIAM)
+		handler = mux
+		stop := make(chan struct{})
+		defer close(stop)
+		go func() {
+			for {
+				select {
+				case er := <-mux.ErrorReports():
+					h.Error(er)
+				case <-stop:
+					return
+				}
+			}
+		}()
+	}
+	xs, _ := kvGet(toks, "x")
 	var obs []*connObs
 	for i := 0; i < n; i++ {
 		mc := newMemConn()
 		o := &connObs{mc: mc, release: make(chan string)}
 		// the connection must be known to the handler before the reader can dispatch
 		h.mu.Lock()
-		c, err := newConnTagged(mc, h)
+		mc.coalesce = xs == "1"
+		c, err := newConnTagged(mc, handler)
 		if err != nil {
 			h.mu.Unlock()
 			return "err"
@@ -208,6 +231,7 @@ func execConnServe(toks []string) string {
 		return last
 	}
 	var outs []string
+	nreg := 0
 	for _, t := range strings.Split(evS, ",") {
 		p := strings.SplitN(t, ":", 2)
 		if len(p) != 2 {
@@ -220,7 +244,37 @@ func execConnServe(toks []string) string {
 		o := obs[k]
 		e := p[1]
 		enabled := true
+		var regDone chan struct{}
 		switch {
+		case e == "T": // the Read in progress fails with a timeout error
+			o.mc.mu.Lock()
+			ok := !o.mc.closed && !o.mc.rdEOF && o.mc.rdErr == nil && len(o.mc.inbox) == 0 && o.mc.blocked > 0
+			o.mc.mu.Unlock()
+			if !ok {
+				enabled = false
+			} else {
+				o.mc.timeout()
+			}
+		case e == "M": // a handler is registered on the live mux (no handler is running anywhere)
+			busy := mux == nil
+			for _, oo := range obs {
+				oo.mu.Lock()
+				if oo.active > 0 {
+					busy = true
+				}
+				oo.mu.Unlock()
+			}
+			if busy {
+				enabled = false
+			} else {
+				nreg++
+				regDone = make(chan struct{})
+				name := fmt.Sprintf("X%d", nreg)
+				go func() {
+					mux.HandleFunc(name, func(diam.Conn, *diam.Message) {})
+					close(regDone)
+				}()
+			}
 		case e == "E":
 			if o.mc.isDone() {
 				enabled = false
@@ -265,7 +319,15 @@ func execConnServe(toks []string) string {
 			outs = append(outs, "skip")
 			continue
 		}
-		outs = append(outs, settle())
+		g := settle()
+		if regDone != nil {
+			select {
+			case <-regDone:
+			case <-time.After(300 * time.Millisecond):
+				g += "|regblocked"
+			}
+		}
+		outs = append(outs, g)
 	}
 	// clean up: end every connection so that nothing leaks into the next case
 	for _, o := range obs {
@@ -323,11 +385,16 @@ func connMsg(r *RNG, id uint32) []byte {
 }
 
 func genConnServe(r *RNG, n int, op string, emit func(string)) {
+	if strings.HasPrefix(op, "cnall") {
+		genConnAll(r, op, emit)
+		return
+	}
 	for i := 0; i < n; i++ {
 		nc := 1
 		if op == "multi" {
 			nc = 2 + r.Intn(2)
 		}
+		useMux := op == "multi" || r.Chance(30)
 		id := uint32(0)
 		var evs []string
 		pendingBytes := make([][]byte, nc)
@@ -345,7 +412,7 @@ func genConnServe(r *RNG, n int, op string, emit func(string)) {
 					b = pendingBytes[k]
 					pendingBytes[k] = nil
 				} else {
-					for j, m := 0, 1+r.Intn(2); j < m; j++ {
+					for j, m := 0, 1+r.Intn(3); j < m; j++ {
 						id++
 						b = append(b, connMsg(r, id)...)
 					}
@@ -359,23 +426,33 @@ func genConnServe(r *RNG, n int, op string, emit func(string)) {
 					}
 					if r.Chance(30) && len(b) > 4 {
 						cut := 1 + r.Intn(len(b)-1)
+						if r.Chance(40) { // inside the 20-byte header of the first message
+							cut = 1 + r.Intn(19)
+						}
 						pendingBytes[k] = b[cut:]
 						b = b[:cut]
 					}
 				}
 				evs = append(evs, fmt.Sprintf("%d:D%s", k, hex.EncodeToString(b)))
-			case choice < 65:
+			case choice < 63:
 				evs = append(evs, fmt.Sprintf("%d:H", k))
-			case choice < 75:
+			case choice < 73:
 				evs = append(evs, fmt.Sprintf("%d:N", k))
-			case choice < 82:
+			case choice < 79:
 				evs = append(evs, fmt.Sprintf("%d:E", k))
-			case choice < 86:
+			case choice < 83:
 				evs = append(evs, fmt.Sprintf("%d:R", k))
-			case choice < 91:
+			case choice < 87:
 				evs = append(evs, fmt.Sprintf("%d:L", k))
+			case choice < 91:
+				evs = append(evs, fmt.Sprintf("%d:T", k))
 			case choice < 96 && (op == "faults" || op == "multi"):
 				evs = append(evs, fmt.Sprintf("%d:P", k))
+				if useMux && r.Chance(50) {
+					evs = append(evs, "0:M")
+				}
+			case choice < 98 && useMux:
+				evs = append(evs, "0:M")
 			default:
 				evs = append(evs, fmt.Sprintf("%d:H", k))
 			}
@@ -391,13 +468,114 @@ func genConnServe(r *RNG, n int, op string, emit func(string)) {
 				evs = append(evs, fmt.Sprintf("%d:N", k))
 			}
 		}
-		emit(fmt.Sprintf("conn serve n=%d ev=%s", nc, strings.Join(evs, ",")))
+		if useMux && r.Chance(50) {
+			evs = append(evs, "0:M")
+			id++
+			evs = append(evs, fmt.Sprintf("%d:D%s", r.Intn(nc), hex.EncodeToString(connMsg(r, id))))
+		}
+		opts := ""
+		if useMux {
+			opts += " h=mux"
+		}
+		if r.Chance(50) {
+			opts += " x=1"
+		}
+		emit(fmt.Sprintf("conn serve n=%d%s ev=%s", nc, opts, strings.Join(evs, ",")))
 	}
+}
+
+// genConnAll: every event sequence of length 1..L (op "cnall<L>") over the alphabet
+// {message, first part of a message / its rest, undecodable message with trailing data,
+//  CloseNotify, peer EOF, read error, read timeout, local Close, handler return},
+// on one connection; events the transport cannot perform any more (after EOF / error / Close)
+// are not enumerated, and at most two CloseNotify requests per sequence.
+func genConnAll(r *RNG, op string, emit func(string)) {
+	L, _ := strconv.Atoi(strings.TrimPrefix(op, "cnall"))
+	if L < 1 {
+		L = 4
+	}
+	type st struct {
+		evs   []string
+		done  bool
+		id    uint32
+		rest  []byte
+		nreq  int
+		coal  bool
+	}
+	alphabet := []string{"D", "F", "B", "N", "E", "R", "T", "L", "H"}
+	var rec func(s st)
+	rec = func(s st) {
+		if len(s.evs) >= L {
+			x := ""
+			if s.coal {
+				x = " x=1"
+			}
+			emit(fmt.Sprintf("conn serve n=1%s ev=%s", x, strings.Join(s.evs, ",")))
+		}
+		if len(s.evs) >= L {
+			return
+		}
+		for _, a := range alphabet {
+			n := s
+			n.evs = append(append([]string(nil), s.evs...), "")
+			var ev string
+			switch a {
+			case "D", "F", "B":
+				if s.done {
+					continue
+				}
+				var b []byte
+				if len(s.rest) > 0 {
+					if a != "F" {
+						continue // a message is half delivered: only its rest can follow
+					}
+					b = s.rest
+					n.rest = nil
+				} else {
+					n.id++
+					switch a {
+					case "D":
+						b = simpleMsg(280, 0x80, 0, n.id, n.id, diam.NewAVP(264, 0x40, 0, datatype.DiameterIdentity("a")))
+					case "F":
+						m := simpleMsg(280, 0x80, 0, n.id, n.id, diam.NewAVP(264, 0x40, 0, datatype.DiameterIdentity("a")))
+						cut := []int{7, 20, 25}[int(n.id)%3]
+						b, n.rest = m[:cut], m[cut:]
+					case "B":
+						b = append(rawHeader(20, 0x80, 9999, 0, n.id, n.id), make([]byte, 30)...)
+					}
+				}
+				ev = "0:D" + hex.EncodeToString(b)
+			case "N":
+				if s.nreq >= 2 {
+					continue
+				}
+				n.nreq++
+				ev = "0:N"
+			case "E", "R", "L":
+				if s.done {
+					continue
+				}
+				n.done = true
+				ev = "0:" + a
+			case "T":
+				if s.done {
+					continue
+				}
+				ev = "0:T"
+			case "H":
+				ev = "0:H"
+			}
+			n.evs[len(n.evs)-1] = ev
+			n.coal = len(n.evs)%2 == 0
+			rec(n)
+		}
+	}
+	rec(st{})
 }
 
 func init() {
 	executors["conn serve"] = execConnServe
-	for _, op := range []string{"serve", "multi", "faults", "closenotify"} {
+	for _, op := range []string{"serve", "multi", "faults", "closenotify", "cnall3", "cnall4", "cnall5", "cnall6"} {
 		connGens[op] = genConnServe
 	}
 }
